@@ -76,8 +76,12 @@ def sessions(tier: str, seed: int, kinds=vloop.CLIENTS):
     c13.CONF.clear()
     shapes = [("accept", dict(refuse=0)), ("refuse2", dict(refuse=2)), ("pending", dict(refuse=0, pending=2.0)),
               ("refuse1-pending", dict(refuse=1, pending=1.0))]
+    # the serial client's configuration write fails in every attempt (a port that opens and then refuses writes): close() during
+    # the pauses between such attempts, and while the port is still being opened
+    serial_shapes = [("cfgfail", dict(refuse=0, write_fail_after=0)), ("pending-cfgfail", dict(refuse=0, pending=2.0, write_fail_after=0)),
+                     ("refuse1-cfgfail", dict(refuse=1, write_fail_after=0))]
     for kind in kinds:
-        for sname, kw in shapes:
+        for sname, kw in shapes + (serial_shapes if kind == "waveshare" else []):
             _, raw = cf.run(kind, cf.Plan(**kw), t_end=40.0)
             last = next((e["step"] for e in raw if e["e"] == "Deliver"), None) or max(e["step"] for e in raw if e["t"] < 6.0)
             steps = list(range(1, last + 6))
